@@ -81,13 +81,14 @@ def generate_ops(rng, cfg, spec, tier) -> list[dict]:
             tgt = "r" if (has_rot and rng.random() < 0.4) else "m"
             ops.append({"op": "serialize", "target": tgt})
         elif r < 0.86 and cfg["rot_params"]:
-            ops.append({"op": "rot_fit"})
+            # a rotator is a model too: half of the later rotator fits re-use the same rotator object
+            ops.append({"op": "rot_fit", "reuse": bool(has_rot or any(o["op"] == "rot_fit" for o in ops)) and rng.random() < 0.5})
             has_rot = True
             # bias: what the base model can still do right after a rotator was fitted on it
             if rng.random() < 0.5:
                 ops.append({"op": rng.choice(["compute", "serialize"]), "target": "m"})
         elif r < 0.90 and cfg["boot_params"]:
-            ops.append({"op": "boot_fit"})
+            ops.append({"op": "boot_fit", "reuse": any(o["op"] == "boot_fit" for o in ops) and rng.random() < 0.5})
             has_boot = True
         elif r < 0.95:
             ops.append({"op": "ambient"})
@@ -358,7 +359,11 @@ def execute(cfg: dict, *, stop_at_first=True, trace=False) -> RunResult:
                 if st["m_fit"] is None:
                     counts["undefined_skips"] += 1
                 else:
-                    r = spec.rot_cls()(**copy.deepcopy(cfg["rot_params"]))
+                    if op.get("reuse") and st["r"] is not None:
+                        r = st["r"]                       # the same rotator object, fitted again
+                        counts["rot_refits"] = counts.get("rot_refits", 0) + 1
+                    else:
+                        r = spec.rot_cls()(**copy.deepcopy(cfg["rot_params"]))
                     out = oracle.capture(r.fit, m)
                     key = (st["m_fit"], mirrored(st["m_computed"]))
                     _, _, rout, _ = refs.rotator(key[0], key[1], bool(cfg["rot_params"]["compute"]))
@@ -376,6 +381,11 @@ def execute(cfg: dict, *, stop_at_first=True, trace=False) -> RunResult:
                         # H4: the base model's own results and labels are intact
                         probe(op, k=3, inv="H4")
                         if not res.violations:
+                            rq = models.draw_queries(seeds.stream(seed, f"rotq/{op['id']}"), spec, cfg["fits"][st["m_fit"]],
+                                                     cfg["new"][st["m_fit"]], int(cfg["rot_params"]["n_modes"]), k=2,
+                                                     rotator=True, serde=False)
+                            check_queries("r", rq, op, "H2" if op.get("reuse") else "H1")
+                        if not res.violations:
                             check_queries("m", [{"q": "params"}], op, inv="H4")
                         if not res.violations and spec.family != "multi":
                             check_queries("m", [{"q": "serde", "sub": {"q": "call", "name": "scores", "kw": {}}}], op, inv="H4")
@@ -384,7 +394,11 @@ def execute(cfg: dict, *, stop_at_first=True, trace=False) -> RunResult:
                     counts["undefined_skips"] += 1
                 else:
                     from xeofs.validation import EOFBootstrapper
-                    b = EOFBootstrapper(**cfg["boot_params"])
+                    if op.get("reuse") and st["b"] is not None:
+                        b = st["b"]
+                        counts["boot_refits"] = counts.get("boot_refits", 0) + 1
+                    else:
+                        b = EOFBootstrapper(**cfg["boot_params"])
                     out = oracle.capture(b.fit, m)
                     _, _, rout, _ = refs.boot(st["m_fit"])
                     counts["boot_fits"] += 1
